@@ -42,10 +42,43 @@ theorem callFunc_unfold (funcs : List Func) (depth fuel : Nat) (name : String) (
     (s s1 : St) (f : Func) (vals : List Val)
     (hf : funcs.find? (fun f => f.name == name && f.params.length == args.length) = some f)
     (hd : (depth == Gen.RECURSION_LIMIT) = false)
-    (ha : evalArgs funcs depth fuel args s = (.ok vals, s1)) :
+    (ha : evalArgs funcs depth fuel args { s with ctxCache := (cacheTake s.ctxCache f.key).2 } = (.ok vals, s1)) :
     callFunc funcs depth (fuel + 1) name args s =
-      finishCall s1 (execBlock funcs (depth + 1) fuel f.body f.catches (calleeInit f vals s1)) := by
-  simp [callFunc, hf, hd, bind, ha]
+      finishCall f s1 (execBlock funcs (depth + 1) fuel f.body f.catches (calleeInit f vals (cacheTake s.ctxCache f.key).1 s1)) := by
+  simp only [callFunc, hf]
+  simp [hd]
+  rw [ha]
+
+/-- the state in which the arguments of a call of `f` are evaluated: a context of `f` is checked out of its cache -/
+def takeCtx (f : Func) (s : St) : St := { s with ctxCache := (cacheTake s.ctxCache f.key).2 }
+
+/-- `callFunc` when an argument fails: the checked-out context goes back to the cache, the error propagates -/
+theorem callFunc_arg_error (funcs : List Func) (depth fuel : Nat) (name : String) (args : List Expr)
+    (s s1 : St) (f : Func) (c : Nat) (a : Bytes)
+    (hf : funcs.find? (fun f => f.name == name && f.params.length == args.length) = some f)
+    (hd : (depth == Gen.RECURSION_LIMIT) = false)
+    (ha : evalArgs funcs depth fuel args (takeCtx f s) = (.err c a, s1)) :
+    callFunc funcs depth (fuel + 1) name args s =
+      (.err c a, { s1 with ctxCache := cachePut s1.ctxCache f.key (cacheTake s.ctxCache f.key).1 }) := by
+  unfold takeCtx at ha
+  simp only [callFunc, hf]
+  simp [hd]
+  rw [ha]
+
+theorem handlerExit_fst (r : Res Flow × St) : (handlerExit r).1 = r.1 := by
+  unfold handlerExit; split <;> rfl
+
+theorem handlerExit_ok (fl : Flow) (s : St) : handlerExit (.ok fl, s) = (.ok fl, { s with lastErr := LastErr.clear }) := rfl
+
+theorem handlerExit_err (c : Nat) (a : Bytes) (s : St) : handlerExit (.err c a, s) = (.err c a, s) := rfl
+
+/-- the built-in `error` reads the context's record and leaves the state alone -/
+theorem eval_error (funcs : List Func) (depth fuel : Nat) (s : St) :
+    eval funcs depth (fuel + 1) .errorE s = (errorTuple s.lastErr, s) := by
+  simp only [eval, bind_app, getSt_app, liftM_app]
+
+theorem evalArgs_nil (funcs : List Func) (d k : Nat) (s : St) : evalArgs funcs d (k + 1) [] s = (.ok [], s) := by
+  simp only [evalArgs, pure_app]
 
 /-- the state in which a statement's own work starts: one unit of the work budget is consumed -/
 def tick (s : St) : St := { s with budget := s.budget - 1 }
@@ -351,6 +384,10 @@ theorem evalBuiltinX_pres (hR : StRel R) (name : String) (args : List (EvalM Val
     | cases hr
 -- END C10
 
+theorem itemAt_pres (hR : StRel R) (recv : EvalM Val) (h : Pres R recv) (n : Nat) : Pres R (itemAt (m := EvalM) recv n) := by
+  unfold itemAt
+  repeat (first | exact h | pres_step h hR)
+
 theorem biSubstr_pres (hR : StRel R) (args : List (EvalM Val)) (h : PArgs R args) : Pres R (biSubstr (m := EvalM) args) :=
   substrLike_pres hR _ _ _ _ _ h
 theorem biSubraw_pres (hR : StRel R) (args : List (EvalM Val)) (h : PArgs R args) : Pres R (biSubraw (m := EvalM) args) :=
@@ -492,8 +529,12 @@ theorem eval_sameIters_step (funcs : List Func) (fuel : Nat) (ih : AllPres SameI
   · exact ihC _ _ _
   · -- member
     repeat (first | pres_core hR | exact ihE _ _ | exact ihA _ _ | exact Pres.modifySt (fun _ => rfl))
+  · -- error
+    exact Pres.bind hR (Pres.getSt hR) (fun _ => Pres.lift hR _)
+  · -- item
+    exact itemAt_pres hR _ (ihE _ _) _
 
-theorem finishCall_iters (caller : St) (r : Res Flow × St) : (finishCall caller r).2.iters = caller.iters := by
+theorem finishCall_iters (f : Func) (caller : St) (r : Res Flow × St) : (finishCall f caller r).2.iters = caller.iters := by
   unfold finishCall; cases r.1 <;> rfl
 
 theorem callFunc_sameIters_step (funcs : List Func) (fuel : Nat) (ih : AllPres SameIters funcs fuel) (depth : Nat) (name : String) (args : List Expr) :
@@ -503,11 +544,17 @@ theorem callFunc_sameIters_step (funcs : List Func) (fuel : Nat) (ih : AllPres S
   unfold callFunc
   split
   · exact Pres.lift hR _
-  · split
-    · exact Pres.failE hR _ _
-    · apply Pres.bind hR (ihA _ _)
-      intro vals
-      exact ⟨fun caller => by unfold SameIters; rw [finishCall_iters]⟩
+  · rename_i f hfind
+    refine Pres.ite _ (Pres.failE hR _ _) ?_
+    constructor
+    intro caller
+    have h1 := (ihA depth args).h { caller with ctxCache := (cacheTake caller.ctxCache f.key).2 }
+    dsimp only
+    split <;> rename_i heq <;> rw [heq] at h1
+    · unfold SameIters; rw [finishCall_iters]; exact h1
+    · exact h1
+    · exact h1
+    · exact h1
 
 theorem evalArgs_sameIters_step (funcs : List Func) (fuel : Nat) (ih : AllPres SameIters funcs fuel) (depth : Nat) (args : List Expr) :
     Pres SameIters (evalArgs funcs depth (fuel + 1) args) := by
@@ -533,7 +580,14 @@ theorem execBlock_sameIters_step (funcs : List Func) (fuel : Nat) (ih : AllPres 
     split
     · exact h1
     · split
-      · exact hR.trans h1 ((ihL _ _).h _)
+      · rename_i handler hfind
+        have h2 := (ihL depth handler).h { s' with lastErr := (c, a) }
+        unfold handlerExit
+        split
+        · rename_i fl s2 heq2
+          rw [heq2] at h2
+          exact hR.trans h1 h2
+        · exact hR.trans h1 h2
       · exact h1
   · exact h1
 
@@ -613,7 +667,7 @@ theorem exec_sameIters_step (funcs : List Func) (fuel : Nat) (ih : AllPres SameI
     refine Pres.h (R := SameIters) ?_ s
     split
     · exact Pres.pure hR _
-    · exact Pres.pure hR _
+    · exact Pres.bind hR (Pres.modifySt (fun _ => rfl)) (fun _ => Pres.pure hR _)
     · -- letS
       have hmap : ∀ (n : String) (tbl' : Val) (st : St), SameIters st { st with iters := st.iters.map fun x => if x.it == n then { x with priv := tbl' } else x } := by
         intro n tbl' st
@@ -673,4 +727,262 @@ theorem sameIters_all (funcs : List Func) : ∀ fuel, AllPres SameIters funcs fu
     exact ⟨eval_sameIters_step funcs fuel ih, callFunc_sameIters_step funcs fuel ih, evalArgs_sameIters_step funcs fuel ih,
       execBlock_sameIters_step funcs fuel ih, execList_sameIters_step funcs fuel ih, exec_sameIters_step funcs fuel ih,
       evalPrint_sameIters_step funcs fuel ih, execIf_sameIters_step funcs fuel ih⟩
+/-! ## Part 3: frame relations — relations that look only at the printed output and at the `for`/`while` control entries
+
+`Frame R`: `R` is reflexive-transitive, holds across every change of the OTHER fields (variables, saved return value, budget,
+running `forall` loops, error record, function-context caches), across printing one more chunk, and across a call when it holds
+across the callee's run (the callee starts with the caller's output and hands its output back; the caller keeps its own control
+entries). Every function of the interpreter's mutual block preserves every such relation, whatever the outcome
+(`frame_all`). Instances: `OutGrows` (output only grows) and `SameCtl` (control entries untouched). -/
+
+structure Frame (R : St → St → Prop) : Prop where
+  rel : StRel R
+  upd : ∀ s s' : St, s'.out = s.out → s'.ctl = s.ctl → R s s'
+  push : ∀ (s : St) (bs : Bytes), R s { s with out := bs :: s.out }
+  call : ∀ (f : Func) (vals : List Val) (rec0 : LastErr) (s1 : St) (r : Res Flow × St),
+    R (calleeInit f vals rec0 s1) r.2 → R s1 (finishCall f s1 r).2
+
+section frame
+variable {R : St → St → Prop}
+
+macro "frame_core" hF:ident hR:ident : tactic => `(tactic| first
+  | exact Pres.pure $hR _
+  | exact Pres.lift $hR _
+  | exact Pres.mlift $hR _
+  | exact Pres.getSt $hR
+  | exact Pres.failE $hR _ _
+  | exact Pres.oof $hR
+  | exact Pres.modifySt (fun _ => Frame.upd $hF _ _ rfl rfl)
+  | exact Pres.modifySt (fun _ => Frame.push $hF _ _)
+  | apply Pres.bind $hR
+  | intro _
+  | split
+  | dsimp only)
+
+theorem forallLoop_frame (hF : Frame R) (body : EvalM Flow) (hb : Pres R body) (it : String) (desc : Bool) :
+    ∀ k, Pres R (forallLoop body it desc k) := by
+  have hR := hF.rel
+  intro k
+  induction k with
+  | zero => exact Pres.oof hR
+  | succ k ih =>
+    unfold forallLoop
+    repeat (first | frame_core hF hR | assumption)
+
+theorem forallExit_frame (hF : Frame R) (it : String) (r : Res Flow × St) : R r.2 (forallExit it r).2 := by
+  unfold forallExit
+  split
+  · exact hF.upd _ _ rfl rfl
+  · exact hF.rel.refl _
+
+theorem eval_frame_step (hF : Frame R) (funcs : List Func) (fuel : Nat) (ih : AllPres R funcs fuel) (depth : Nat) (e : Expr) :
+    Pres R (eval funcs depth (fuel + 1) e) := by
+  have hR := hF.rel
+  obtain ⟨ihE, ihC, ihA, -, -, -, -, -⟩ := ih
+  unfold eval
+  split
+  · exact Pres.pure hR _
+  · exact Pres.bind hR (Pres.getSt hR) (fun _ => Pres.lift hR _)
+  · exact Pres.bind hR (ihE _ _) (fun _ => Pres.lift hR _)
+  · repeat (first | frame_core hF hR | exact ihE _ _)
+  · repeat (first | frame_core hF hR | exact ihE _ _)
+  · repeat (first | frame_core hF hR | exact ihE _ _)
+  · exact biTab_pres hR _ (PArgs.map _ _ (ihE _))
+  · exact biTup_pres hR _ (PArgs.map _ _ (ihE _))
+  · split
+    · rename_i r hr
+      exact evalBuiltin_pres hR _ _ _ (PArgs.map _ _ (ihE _)) r hr
+    · exact Pres.lift hR _
+  · exact ihC _ _ _
+  · repeat (first | frame_core hF hR | exact ihE _ _ | exact ihA _ _)
+  · exact Pres.bind hR (Pres.getSt hR) (fun _ => Pres.lift hR _)
+  · exact itemAt_pres hR _ (ihE _ _) _
+
+theorem callFunc_frame_step (hF : Frame R) (funcs : List Func) (fuel : Nat) (ih : AllPres R funcs fuel) (depth : Nat) (name : String) (args : List Expr) :
+    Pres R (callFunc funcs depth (fuel + 1) name args) := by
+  have hR := hF.rel
+  obtain ⟨-, -, ihA, ihB, -, -, -, -⟩ := ih
+  unfold callFunc
+  split
+  · exact Pres.lift hR _
+  · rename_i f hfind
+    refine Pres.ite _ (Pres.failE hR _ _) ?_
+    constructor
+    intro caller
+    have h0 : R caller { caller with ctxCache := (cacheTake caller.ctxCache f.key).2 } := hF.upd _ _ rfl rfl
+    have h1 := (ihA depth args).h { caller with ctxCache := (cacheTake caller.ctxCache f.key).2 }
+    dsimp only
+    split <;> rename_i heq <;> rw [heq] at h1
+    · rename_i vals s1
+      refine hR.trans (hR.trans h0 h1) ?_
+      exact hF.call f vals _ s1 _ ((ihB (depth + 1) f.body f.catches).h _)
+    · exact hR.trans (hR.trans h0 h1) (hF.upd _ _ rfl rfl)
+    · exact hR.trans (hR.trans h0 h1) (hF.upd _ _ rfl rfl)
+    · exact hR.trans (hR.trans h0 h1) (hF.upd _ _ rfl rfl)
+
+theorem evalArgs_frame_step (hF : Frame R) (funcs : List Func) (fuel : Nat) (ih : AllPres R funcs fuel) (depth : Nat) (args : List Expr) :
+    Pres R (evalArgs funcs depth (fuel + 1) args) := by
+  have hR := hF.rel
+  obtain ⟨ihE, -, ihA, -, -, -, -, -⟩ := ih
+  cases args with
+  | nil => unfold evalArgs; exact Pres.pure hR _
+  | cons a as =>
+    unfold evalArgs
+    repeat (first | frame_core hF hR | exact ihE _ _ | exact ihA _ _)
+
+theorem execBlock_frame_step (hF : Frame R) (funcs : List Func) (fuel : Nat) (ih : AllPres R funcs fuel) (depth : Nat) (body : List Stmt) (catches : List (String × List Stmt)) :
+    Pres R (execBlock funcs depth (fuel + 1) body catches) := by
+  have hR := hF.rel
+  obtain ⟨-, -, -, -, ihL, -, -, -⟩ := ih
+  unfold execBlock
+  constructor
+  intro s
+  have h1 := (ihL depth body).h s
+  split
+  · rename_i c a s' heq
+    rw [heq] at h1
+    split
+    · exact h1
+    · split
+      · rename_i handler hfind
+        have h2 := (ihL depth handler).h { s' with lastErr := (c, a) }
+        have h3 : R s' { s' with lastErr := (c, a) } := hF.upd _ _ rfl rfl
+        unfold handlerExit
+        split
+        · rename_i fl s2 heq2
+          rw [heq2] at h2
+          exact hR.trans h1 (hR.trans h3 (hR.trans h2 (hF.upd _ _ rfl rfl)))
+        · exact hR.trans h1 (hR.trans h3 h2)
+      · exact h1
+  · exact h1
+
+theorem execList_frame_step (hF : Frame R) (funcs : List Func) (fuel : Nat) (ih : AllPres R funcs fuel) (depth : Nat) (l : List Stmt) :
+    Pres R (execList funcs depth (fuel + 1) l) := by
+  have hR := hF.rel
+  obtain ⟨-, -, -, -, ihL, ihS, -, -⟩ := ih
+  cases l with
+  | nil => unfold execList; exact Pres.pure hR _
+  | cons a as =>
+    unfold execList
+    repeat (first | frame_core hF hR | exact ihL _ _ | exact ihS _ _)
+
+theorem evalPrint_frame_step (hF : Frame R) (funcs : List Func) (fuel : Nat) (ih : AllPres R funcs fuel) (depth : Nat) (l : List Expr) :
+    Pres R (evalPrint funcs depth (fuel + 1) l) := by
+  have hR := hF.rel
+  obtain ⟨ihE, -, -, -, -, -, ihP, -⟩ := ih
+  cases l with
+  | nil => unfold evalPrint; exact Pres.pure hR _
+  | cons a as =>
+    unfold evalPrint
+    repeat (first | frame_core hF hR | exact ihE _ _ | exact ihP _ _)
+
+theorem execIf_frame_step (hF : Frame R) (funcs : List Func) (fuel : Nat) (ih : AllPres R funcs fuel) (depth : Nat) (l : List (Option Expr × List Stmt)) :
+    Pres R (execIf funcs depth (fuel + 1) l) := by
+  have hR := hF.rel
+  obtain ⟨ihE, -, -, -, ihL, -, -, ihI⟩ := ih
+  cases l with
+  | nil => unfold execIf; exact Pres.pure hR _
+  | cons a as =>
+    obtain ⟨c, b⟩ := a
+    unfold execIf
+    repeat (first | frame_core hF hR | exact ihE _ _ | exact ihL _ _ | exact ihI _ _)
+
+theorem forall_run_frame (hF : Frame R) (it : String) (b : Iter) (s1 : St) (body : EvalM Flow) (hb : Pres R body) (desc : Bool) (k : Nat) :
+    R s1 (forallExit it (forallLoop body it desc k { s1 with iters := b :: s1.iters })).2 :=
+  hF.rel.trans (hF.upd s1 { s1 with iters := b :: s1.iters } rfl rfl)
+    (hF.rel.trans ((forallLoop_frame hF body hb it desc k).h _) (forallExit_frame hF it _))
+
+theorem exec_frame_step (hF : Frame R) (funcs : List Func) (fuel : Nat) (ih : AllPres R funcs fuel) (depth : Nat) (st : Stmt) :
+    Pres R (exec funcs depth (fuel + 1) st) := by
+  have hR := hF.rel
+  obtain ⟨ihE, -, -, ihB, ihL, -, ihP, ihI⟩ := ih
+  unfold exec
+  constructor
+  intro s0
+  split
+  · exact hR.refl _
+  · refine hR.trans (b := { s0 with budget := s0.budget - 1 }) (hF.upd _ _ rfl rfl) ?_
+    generalize ({ s0 with budget := s0.budget - 1 } : St) = s
+    refine Pres.h (R := R) ?_ s
+    split
+    · exact Pres.pure hR _
+    · exact Pres.bind hR (Pres.modifySt (fun _ => hF.upd _ _ rfl rfl)) (fun _ => Pres.pure hR _)
+    · -- letS
+      repeat (first | frame_core hF hR | exact ihE _ _)
+    · repeat (first | frame_core hF hR | exact ihE _ _)
+    · repeat (first | frame_core hF hR | exact ihP _ _)
+    · exact ihI _ _
+    · exact whileLoop_pres hR _ _ (ihE _ _) (ihL _ _) _
+    · -- forS
+      repeat (first | frame_core hF hR | exact ihE _ _ | exact forLoop_pres hR (fun _ _ => hF.upd _ _ rfl rfl) _ _ _ _ _ (ihL _ _) _)
+    · -- forallS
+      apply Pres.bind hR (ihE _ _); intro tv
+      split
+      · exact Pres.pure hR _
+      split
+      · exact Pres.lift hR _
+      refine Pres.ite _ (Pres.pure hR _) ?_
+      apply Pres.bind hR (Pres.getSt hR); intro s
+      refine Pres.ite _ (Pres.failE hR _ _) ?_
+      split
+      · refine Pres.ite _ (Pres.lift hR _) ?_
+        exact ⟨fun s1 => forall_run_frame hF _ _ s1 _ (ihL _ _) _ _⟩
+      · rename_i src dir body h1 h2 recv hx
+        cases src <;> first
+          | exact absurd rfl (hx _)
+          | exact ⟨fun s1 => forall_run_frame hF _ _ s1 _ (ihL _ _) _ _⟩
+    · exact ihB _ _ _
+    · repeat (first | frame_core hF hR)
+    · exact Pres.pure hR _
+    · repeat (first | frame_core hF hR | exact ihE _ _)
+    · exact Pres.pure hR _
+    · exact Pres.pure hR _
+
+/-- **The mutual induction for frame relations.** -/
+theorem frame_all (hF : Frame R) (funcs : List Func) : ∀ fuel, AllPres R funcs fuel := by
+  have hR := hF.rel
+  intro fuel
+  induction fuel with
+  | zero =>
+    refine ⟨?_, ?_, ?_, ?_, ?_, ?_, ?_, ?_⟩
+    · intro d e; unfold eval; exact Pres.oof hR
+    · intro d n a; unfold callFunc; exact Pres.oof hR
+    · intro d a; unfold evalArgs; exact Pres.oof hR
+    · intro d b c; unfold execBlock; exact Pres.oof hR
+    · intro d l; unfold execList; exact Pres.oof hR
+    · intro d s; unfold exec; exact Pres.oof hR
+    · intro d l; unfold evalPrint; exact Pres.oof hR
+    · intro d l; unfold execIf; exact Pres.oof hR
+  | succ fuel ih =>
+    exact ⟨eval_frame_step hF funcs fuel ih, callFunc_frame_step hF funcs fuel ih, evalArgs_frame_step hF funcs fuel ih,
+      execBlock_frame_step hF funcs fuel ih, execList_frame_step hF funcs fuel ih, exec_frame_step hF funcs fuel ih,
+      evalPrint_frame_step hF funcs fuel ih, execIf_frame_step hF funcs fuel ih⟩
+end frame
+
+/-- Everything printed before is still there, in the same order, below what was printed since (`out` holds the chunks most recent first). -/
+def OutGrows (s s' : St) : Prop := ∃ l : List Bytes, s'.out = l ++ s.out
+
+theorem outGrows_frame : Frame OutGrows where
+  rel := ⟨fun _ => ⟨[], rfl⟩, fun ⟨l1, h1⟩ ⟨l2, h2⟩ => ⟨l2 ++ l1, by rw [h2, h1, List.append_assoc]⟩⟩
+  upd := fun _ _ ho _ => ⟨[], by simpa using ho⟩
+  push := fun _ bs => ⟨[bs], rfl⟩
+  call := fun f vals rec0 s1 r ⟨l, h⟩ => ⟨l, by
+    have e : (finishCall f s1 r).2.out = r.2.out := by unfold finishCall; cases r.1 <;> rfl
+    rw [e, h]; rfl⟩
+
+/-- the `for`/`while` control entries a run could leave behind are untouched -/
+def SameCtl (s s' : St) : Prop := s'.ctl = s.ctl
+
+theorem sameCtl_frame : Frame SameCtl where
+  rel := ⟨fun _ => rfl, fun h1 h2 => by unfold SameCtl at *; rw [h2, h1]⟩
+  upd := fun _ _ _ hc => hc
+  push := fun _ _ => rfl
+  call := fun f vals rec0 s1 r _ => by unfold SameCtl finishCall; cases r.1 <;> rfl
+
+/-- `St.output` of a later state extends that of an earlier one -/
+theorem output_prefix_of_outGrows (s s' : St) (h : OutGrows s s') : ∃ t : Bytes, s'.output = s.output ++ t := by
+  obtain ⟨l, hl⟩ := h
+  refine ⟨l.reverse.flatten, ?_⟩
+  unfold St.output
+  rw [hl, List.reverse_append, List.flatten_append]
 end BlocV.Lemmas
